@@ -203,4 +203,307 @@ theorem extendLeaf_spec (us : Units) (n m : Nat) (nm : String) (k : Kind) (o no 
             exact ⟨key.1, leaf_rect_of_good key.2, ⟨_, _, rfl⟩⟩
       · simp at h
 
+/-! ### the dict of fields -/
+
+theorem getField_some : ∀ {fs : List Field} {n : String} {f : Field}, getField fs n = some f → f ∈ fs ∧ f.name = n := by
+  intro fs n f h
+  simp only [getField] at h
+  have h1 := List.find?_some h
+  have h2 := List.mem_of_find?_eq_some h
+  exact ⟨h2, by simpa using h1⟩
+
+theorem mem_setField : ∀ {acc : List Field} {f x : Field}, x ∈ setField acc f → x = f ∨ (x ∈ acc ∧ x ≠ f)  ∨ x ∈ acc
+  | [], f, x, h => by simp [setField] at h; exact Or.inl h
+  | g :: gs, f, x, h => by
+    simp only [setField] at h
+    split at h
+    · rcases List.mem_cons.mp h with h | h
+      · exact Or.inl h
+      · exact Or.inr (Or.inr (List.mem_cons_of_mem _ h))
+    · rcases List.mem_cons.mp h with h | h
+      · exact Or.inr (Or.inr (by simp [h]))
+      · rcases mem_setField h with h | h | h
+        · exact Or.inl h
+        · exact Or.inr (Or.inr (List.mem_cons_of_mem _ h.1))
+        · exact Or.inr (Or.inr (List.mem_cons_of_mem _ h))
+
+/-- with unique names, `dict[name] = f` keeps exactly the entries under other names -/
+theorem mem_setField_nodup : ∀ {acc : List Field} {f x : Field}, (names acc).Nodup → x ∈ setField acc f →
+    x = f ∨ (x ∈ acc ∧ x.name ≠ f.name)
+  | [], f, x, _, h => by simp [setField] at h; exact Or.inl h
+  | g :: gs, f, x, hn, h => by
+    simp only [names, List.map_cons, List.nodup_cons] at hn
+    simp only [setField] at h
+    split at h
+    · rename_i heq
+      have heq' : g.name = f.name := by simpa using heq
+      rcases List.mem_cons.mp h with h | h
+      · exact Or.inl h
+      · refine Or.inr ⟨List.mem_cons_of_mem _ h, ?_⟩
+        intro hx
+        apply hn.1
+        rw [heq', ← hx]
+        exact List.mem_map_of_mem h
+    · rename_i hne
+      have hne' : g.name ≠ f.name := by simpa using hne
+      rcases List.mem_cons.mp h with h | h
+      · subst h; exact Or.inr ⟨by simp, hne'⟩
+      · rcases mem_setField_nodup (by simpa [names] using hn.2) h with h | h
+        · exact Or.inl h
+        · exact Or.inr ⟨List.mem_cons_of_mem _ h.1, h.2⟩
+
+theorem self_mem_setField : ∀ (acc : List Field) (f : Field), f ∈ setField acc f
+  | [], f => by simp [setField]
+  | g :: gs, f => by
+    simp only [setField]
+    split
+    · simp
+    · exact List.mem_cons_of_mem _ (self_mem_setField gs f)
+
+theorem names_setField : ∀ (acc : List Field) (f : Field),
+    names (setField acc f) = if f.name ∈ names acc then names acc else names acc ++ [f.name]
+  | [], f => by simp [setField, names]
+  | g :: gs, f => by
+    simp only [setField]
+    split
+    · rename_i heq
+      have heq' : g.name = f.name := by simpa using heq
+      simp [names, heq']
+    · rename_i hne
+      have hne' : g.name ≠ f.name := by simpa using hne
+      have ih := names_setField gs f
+      simp only [names] at ih ⊢
+      simp only [List.map_cons, ih, List.mem_cons]
+      by_cases hm : f.name ∈ List.map Field.name gs
+      · simp [hm]
+      · simp [hm, Ne.symm hne']
+
+theorem nodup_setField {acc : List Field} {f : Field} (hn : (names acc).Nodup) : (names (setField acc f)).Nodup := by
+  rw [names_setField]
+  split
+  · exact hn
+  · rename_i hm
+    exact List.nodup_append.mpr ⟨hn, by simp, by intro a ha b hb; simp at hb; subst hb; intro he; exact hm (he ▸ ha)⟩
+
+theorem setField_ne_nil (acc : List Field) (f : Field) : setField acc f ≠ [] := by
+  cases acc with
+  | nil => simp [setField]
+  | cons g gs => simp only [setField]; split <;> simp
+
+/-! ### the invariant of the loop over `other._fields` -/
+
+/-- `done` names have been handled (their fields have `n + m` rows), the others are still the
+`n`-row fields of `self` -/
+structure AccInv (h : Heap) (n m : Nat) (deep : Bool) (selfKeys : List String) (done : String → Prop)
+    (acc : List Field) : Prop where
+  nodup : (names acc).Nodup
+  each : ∀ f ∈ acc, WFF f ∧ (deep = true → f.nonEmpty) ∧
+    (done f.name → RectField h (n + m) f) ∧ (¬ done f.name → RectField h n f ∧ f.name ∈ selfKeys)
+
+theorem AccInv.ext {h h' n m deep sk done acc} (a : AccInv h n m deep sk done acc) (e : HeapExt h h') :
+    AccInv h' n m deep sk done acc :=
+  ⟨a.nodup, fun f hf => by
+    obtain ⟨h1, h2, h3, h4⟩ := a.each f hf
+    exact ⟨h1, h2, fun hd => RectField.ext e f (h3 hd), fun hd => ⟨RectField.ext e f (h4 hd).1, (h4 hd).2⟩⟩⟩
+
+/-- one step of the loop: the field `f'` made for the name `nm` replaces / joins the dict -/
+theorem AccInv.step {h n m deep sk} {done : String → Prop} {acc : List Field} {f' : Field} {nm : String}
+    (a : AccInv h n m deep sk done acc) (hname : f'.name = nm)
+    (hw : WFF f') (hne : deep = true → f'.nonEmpty) (hr : RectField h (n + m) f') :
+    AccInv h n m deep sk (fun x => done x ∨ x = nm) (setField acc f') := by
+  refine ⟨nodup_setField a.nodup, ?_⟩
+  intro f hf
+  rcases mem_setField_nodup a.nodup hf with rfl | ⟨hin, hneq⟩
+  · exact ⟨hw, hne, fun _ => hr, fun hd => absurd (Or.inr hname) hd⟩
+  · obtain ⟨h1, h2, h3, h4⟩ := a.each f hin
+    have hx : f.name ≠ nm := by rw [← hname]; exact hneq
+    refine ⟨h1, h2, ?_, ?_⟩
+    · intro hd
+      rcases hd with hd | hd
+      · exact h3 hd
+      · exact absurd hd hx
+    · intro hd
+      exact h4 (fun h0 => hd (Or.inl h0))
+
+/-- **the second loop of `Collection._extend`**: the fields the other collection lacks get `m` empty rows -/
+theorem appendLoop_spec (n m : Nat) (deep : Bool) (p : String → Bool) : ∀ (acc : List Field) (s : St)
+    (acc' : List Field) (s' : St), appendLoop p m acc s = .ok (acc', s') → MemoGood (n + m) s →
+    (∀ f ∈ acc, WFF f ∧ (deep = true → f.nonEmpty) ∧ (p f.name = true → RectField s.heap n f) ∧
+      (p f.name = false → RectField s.heap (n + m) f)) →
+    ExtOK (n + m) s s' ∧ (∀ f ∈ acc', WFF f ∧ (deep = true → f.nonEmpty) ∧ RectField s'.heap (n + m) f) ∧
+      names acc' = names acc
+  | [], s, acc', s', h, hm, _ => by
+    simp only [appendLoop, Except.ok.injEq, Prod.mk.injEq] at h
+    obtain ⟨rfl, rfl⟩ := h
+    exact ⟨⟨HeapExt.refl _, hm⟩, by simp, rfl⟩
+  | f :: fs, s, acc', s', h, hm, hall => by
+    simp only [appendLoop] at h
+    split at h
+    · simp at h
+    · rename_i f1 s1 hstep
+      split at h
+      · simp at h
+      · rename_i fs1 s2 hrest
+        simp only [Except.ok.injEq, Prod.mk.injEq] at h
+        obtain ⟨rfl, rfl⟩ := h
+        obtain ⟨w, ne, hp1, hp0⟩ := hall f (by simp)
+        have key : ExtOK (n + m) s s1 ∧ RectField s1.heap (n + m) f1 ∧ SameShape f f1 := by
+          split at hstep
+          · rename_i hp
+            exact padField_spec false n m f s f1 s1 hstep hm (hp1 hp) w
+          · rename_i hp
+            simp only [Except.ok.injEq, Prod.mk.injEq] at hstep
+            obtain ⟨rfl, rfl⟩ := hstep
+            exact ⟨⟨HeapExt.refl _, hm⟩, hp0 (by simpa using hp), SameShape.refl _⟩
+        obtain ⟨⟨e1, m1⟩, r1, sh1⟩ := key
+        obtain ⟨⟨e2, m2⟩, hall2, hn2⟩ := appendLoop_spec n m deep p fs s1 fs1 s2 hrest m1 (fun c hc => by
+          obtain ⟨a, b, c1, c0⟩ := hall c (List.mem_cons_of_mem _ hc)
+          exact ⟨a, b, fun hp => RectField.ext e1 c (c1 hp), fun hp => RectField.ext e1 c (c0 hp)⟩)
+        refine ⟨⟨e1.trans e2, m2⟩, ?_, ?_⟩
+        · intro c hc
+          rcases List.mem_cons.mp hc with rfl | hc
+          · exact ⟨SameShape.wff f c sh1 w, fun hd => sh1.nonEmpty (ne hd), RectField.ext e2 c r1⟩
+          · exact hall2 c hc
+        · simp only [names, List.map_cons] at hn2 ⊢
+          rw [hn2, sh1.name]
+
+/-! **`Collection._extend`: the loop over the other collection, and `FieldType.extend`** -/
+mutual
+theorem extendField_spec (us : Units) (n m : Nat) : ∀ (g f : Field) (s : St) (f' : Field) (s' : St),
+    extendField us f g s = .ok (f', s') → MemoGood (n + m) s →
+    RectField s.heap n f → RectField s.heap m g → WFF f → WFF g →
+    ExtOK (n + m) s s' ∧ RectField s'.heap (n + m) f' ∧ WFF f' ∧ f'.name = f.name ∧ (f.nonEmpty → f'.nonEmpty)
+  | g, .leaf nm k o no u l, s, f', s', h, hm, hrf, hrg, _, _ => by
+    simp only [extendField] at h
+    obtain ⟨e, r, ⟨o', no', rfl⟩⟩ := extendLeaf_spec us n m nm k o no u l g s f' s' h hm hrf hrg
+    exact ⟨e, r, by simp [WFF], rfl, fun _ => by simp [Field.nonEmpty]⟩
+  | .leaf .., .coll .., s, f', s', h, _, _, _, _, _ => by
+    simp [extendField] at h
+  | .coll nm2 no2 l2 gs, .coll nm no l fs, s, f', s', h, hm, hrf, hrg, hwf, hwg => by
+    simp only [extendField] at h
+    split at h
+    · simp at h
+    · rename_i fs' s2 hfin
+      simp only [Except.ok.injEq, Prod.mk.injEq] at h
+      obtain ⟨rfl, rfl⟩ := h
+      have hsl : collRows s.heap no fs = n := collRows_eq hrf hwf
+      have hol : collRows s.heap no2 gs = m := collRows_eq hrg hwg
+      rw [hsl, hol] at hfin
+      simp only [extendFinish] at hfin
+      split at hfin
+      · simp at hfin
+      · rename_i acc1 s1 hloop
+        simp only [RectField] at hrf hrg
+        have hwf' := hwf; have hwg' := hwg
+        simp only [WFF] at hwf hwg
+        have hf_each := (WFFs_iff fs).mp hwf.2
+        have hg_each := (WFFs_iff gs).mp hwg.2
+        have hf_rect := (rectFields_iff fs).mp hrf.1
+        have hg_rect := (rectFields_iff gs).mp hrg.1
+        have inv0 : AccInv s.heap n m true (names fs) (fun _ => False) fs :=
+          ⟨hwf.1, fun c hc => ⟨(hf_each c hc).1, fun _ => (hf_each c hc).2, fun hd => absurd hd id,
+            fun _ => ⟨hf_rect c hc, List.mem_map_of_mem hc⟩⟩⟩
+        obtain ⟨⟨e1, m1⟩, inv1, hne1⟩ := loop1_spec us n m true (names fs) gs (fun _ => False) fs s acc1 s1 hloop hm inv0
+          (fun g hg => ⟨hg_rect g hg, (hg_each g hg).1, fun _ => (hg_each g hg).2⟩) hwg.1 (fun g _ hd => hd)
+        obtain ⟨⟨e2, m2⟩, hall, hnames⟩ := appendLoop_spec n m true _ acc1 s1 fs' s2 hfin m1 (by
+          intro c hc
+          obtain ⟨c1, c2, c3, c4⟩ := inv1.each c hc
+          refine ⟨c1, c2, ?_, ?_⟩
+          · intro hp
+            by_cases hd : (False ∨ c.name ∈ names gs)
+            · have hd' : c.name ∈ names gs := by simpa using hd
+              have hm0 : m = 0 := by
+                simp only [onlyInSelf, Bool.or_eq_true, Bool.and_eq_true, Bool.not_eq_true', beq_iff_eq,
+                  List.contains_eq_mem, decide_eq_true_eq, decide_eq_false_iff_not] at hp
+                rcases hp with hp | hp
+                · exact absurd hd' hp.2
+                · exact hp.1
+              have := c3 hd
+              rw [hm0] at this; simpa using this
+            · exact (c4 hd).1
+          · intro hp
+            by_cases hd : (False ∨ c.name ∈ names gs)
+            · exact c3 hd
+            · exfalso
+              have hd' : c.name ∉ names gs := by simpa using hd
+              have hin := (c4 hd).2
+              simp only [onlyInSelf, Bool.or_eq_false_iff, Bool.and_eq_false_iff, Bool.not_eq_false',
+                List.contains_eq_mem, decide_eq_false_iff_not, decide_eq_true_eq] at hp
+              rcases hp.1 with h0 | h0
+              · exact h0 hin
+              · exact hd' h0)
+        have hnd : (names fs').Nodup := by rw [hnames]; exact inv1.nodup
+        have hwffs : WFF.WFFs fs' := (WFFs_iff fs').mpr (fun c hc => ⟨(hall c hc).1, (hall c hc).2.1 rfl⟩)
+        have hrects : RectField.RectFields s2.heap (n + m) fs' := (rectFields_iff fs').mpr (fun c hc => (hall c hc).2.2)
+        have hne : fs ≠ [] → fs' ≠ [] := by
+          intro h0 h1
+          have : names acc1 = [] := by rw [← hnames, h1]; rfl
+          have : acc1 = [] := by cases acc1 <;> simp_all [names]
+          exact hne1 h0 this
+        refine ⟨⟨e1.trans e2, m2⟩, ?_, ?_, rfl, ?_⟩
+        · simp only [RectField]
+          refine ⟨hrects, ?_⟩
+          by_cases he : fs' = []
+          · simp [he, hsl, hol]
+          · have : fs'.isEmpty = false := by cases fs' <;> simp_all
+            simp only [this, Bool.false_eq_true, if_false, collLen]
+            exact RectFields.len fs' hrects (WFFs.headDef fs' hwffs he)
+        · simp only [WFF]; exact ⟨hnd, hwffs⟩
+        · simp only [Field.nonEmpty]; exact hne
+theorem loop1_spec (us : Units) (n m : Nat) (deep : Bool) (selfKeys : List String) :
+    ∀ (gs : List Field) (done : String → Prop) (acc : List Field) (s : St) (acc' : List Field) (s' : St),
+    extendField.loop1 us selfKeys n acc gs s = .ok (acc', s') → MemoGood (n + m) s →
+    AccInv s.heap n m deep selfKeys done acc →
+    (∀ g ∈ gs, RectField s.heap m g ∧ WFF g ∧ (deep = true → g.nonEmpty)) → (names gs).Nodup →
+    (∀ g ∈ gs, ¬ done g.name) →
+    ExtOK (n + m) s s' ∧ AccInv s'.heap n m deep selfKeys (fun x => done x ∨ x ∈ names gs) acc' ∧
+      (acc ≠ [] → acc' ≠ [])
+  | [], done, acc, s, acc', s', h, hm, inv, _, _, _ => by
+    simp only [extendField.loop1, Except.ok.injEq, Prod.mk.injEq] at h
+    obtain ⟨rfl, rfl⟩ := h
+    refine ⟨⟨HeapExt.refl _, hm⟩, ?_, id⟩
+    have : (fun x => done x ∨ x ∈ names ([] : List Field)) = done := by funext x; simp [names]
+    rw [this]; exact inv
+  | g :: gs, done, acc, s, acc', s', h, hm, inv, hgs, hnd, hdone => by
+    simp only [extendField.loop1] at h
+    split at h
+    · simp at h
+    · rename_i f1 s1 hstep
+      obtain ⟨hg_rect, hg_wff, hg_ne⟩ := hgs g (by simp)
+      have hgd : ¬ done g.name := hdone g (by simp)
+      simp only [names, List.map_cons, List.nodup_cons] at hnd
+      -- the field made for the name of `g`
+      have key : ExtOK (n + m) s s1 ∧ RectField s1.heap (n + m) f1 ∧ WFF f1 ∧ f1.name = g.name ∧
+          (deep = true → f1.nonEmpty) := by
+        split at hstep
+        · -- only in other (or self has no rows): a copy of `g` with `n` empty rows in front
+          have hm' : MemoGood (m + n) s := by rw [Nat.add_comm]; exact hm
+          obtain ⟨⟨e, mm⟩, r, sh⟩ := padField_spec true m n g s f1 s1 hstep hm' hg_rect hg_wff
+          rw [Nat.add_comm] at mm r
+          exact ⟨⟨e, mm⟩, r, SameShape.wff g f1 sh hg_wff, sh.name, fun hd => sh.nonEmpty (hg_ne hd)⟩
+        · split at hstep
+          · simp at hstep
+          · rename_i f hget
+            obtain ⟨hfin, hfname⟩ := getField_some hget
+            obtain ⟨c1, c2, _, c4⟩ := inv.each f hfin
+            have hfd : ¬ done f.name := by rw [hfname]; exact hgd
+            obtain ⟨e, r, w, nmq, ne⟩ := extendField_spec us n m g f s f1 s1 hstep hm (c4 hfd).1 hg_rect c1 hg_wff
+            exact ⟨e, r, w, by rw [nmq, hfname], fun hd => ne (c2 hd)⟩
+      obtain ⟨⟨e1, m1⟩, r1, w1, nm1, ne1⟩ := key
+      have inv1 := (inv.ext e1).step (f' := f1) (nm := g.name) nm1 w1 ne1 r1
+      obtain ⟨⟨e2, m2⟩, inv2, hne2⟩ := loop1_spec us n m deep selfKeys gs _ (setField acc f1) s1 acc' s' h m1 inv1
+        (fun g' hg' => by
+          obtain ⟨a, b, c⟩ := hgs g' (List.mem_cons_of_mem _ hg')
+          exact ⟨RectField.ext e1 g' a, b, c⟩)
+        (by simpa [names] using hnd.2)
+        (fun g' hg' hd => by
+          rcases hd with hd | hd
+          · exact hdone g' (List.mem_cons_of_mem _ hg') hd
+          · exact hnd.1 (hd ▸ List.mem_map_of_mem hg'))
+      refine ⟨⟨e1.trans e2, m2⟩, ?_, fun _ => hne2 (setField_ne_nil acc f1)⟩
+      have : (fun x => (done x ∨ x = g.name) ∨ x ∈ names gs) = (fun x => done x ∨ x ∈ names (g :: gs)) := by
+        funext x; simp [names, or_assoc]
+      rw [← this]; exact inv2
+end
+
 end Midgard.Dataset
